@@ -17,6 +17,10 @@ import (
 func init() { register("C07", runC07) }
 
 func runC07(c *mon.Ctx) {
+	if flagMode == "lifecycle" {
+		c.Cases(func(i int, r *mon.Rand) { lifecycleCase(c, r, "C07") })
+		return
+	}
 	c.Cases(func(i int, r *mon.Rand) { c07Run(c, r) })
 }
 
@@ -224,6 +228,10 @@ func c07Run(c *mon.Ctx, r *mon.Rand) {
 							if wr.Chance(1, 4) {
 								h.h = sc.Histogram("h", tally.ValueBuckets{})
 							}
+							if wr.Chance(1, 3) {
+								// a child that exists (registered, never recorded on) while its parent is live
+								sc.SubScope("kid").Counter("c")
+							}
 							handles = append(handles, h)
 						case op <= 6: // record on a retained handle
 							h := handles[wr.Intn(len(handles))]
@@ -257,6 +265,8 @@ func c07Run(c *mon.Ctx, r *mon.Rand) {
 								ch.Counter("c").Inc(1)
 								ch.Tagged(map[string]string{"x": "y"}).Gauge("g").Update(1)
 								ch.Timer("t").Record(time.Millisecond)
+								// also when that child already exists in the registry
+								h.sc.SubScope("kid").Counter("c").Inc(1)
 							}
 							kept := handles[:0]
 							for _, x := range handles {
